@@ -1,5 +1,6 @@
 #include "VM/include/program.hpp"
 #include "VM/include/vm.hpp"
+#include "VM/include/verif_hook.hpp"
 
 using namespace Theo;
 
@@ -86,6 +87,7 @@ bool VM::isDone() {
 }
 
 bool VM::executeSingle() {
+  THEO_VERIF_POINT(VM_STEP, this->instruction_pointer, 0);
   Instruction i = this->code.code[this->instruction_pointer];
   switch (i.op) {
     case OpCode::POTENTIAL_BREAK: {
